@@ -28,6 +28,7 @@ import (
 	"gverif/engine/sibx"
 	"gverif/engine/stride"
 	"gverif/engine/twin"
+	"gverif/engine/worksize"
 )
 
 type property struct {
@@ -108,6 +109,13 @@ var lapackArgs = args.Options{
 }
 var blasArgs = args.Options{RecvType: "Implementation"}
 
+// Routines whose workspace-query answer WORKSIZE cannot relate to their
+// enforced minimum, each confirmed by reading.
+var worksizeExempt = map[string]string{
+	"Dorghr":  "nh = ihi-ilo: the argument checks force ihi >= ilo-1 (and ihi = -1, ilo = 0 when n == 0), a relation between two parameters that the lower-bound facts of the prover cannot express; with nh >= 0 both answers (1 when n == 0, max(1,nh)*nb otherwise) dominate max(1,nh)",
+	"Dlaqr23": "the answer jw + max(Dgehrd query, Dormhr query) with jw = min(nw, kbot-ktop+1) exceeds the enforced 2*nw only through the constant tsize term of the nested answers (value-level); internal routine whose only caller Dlaqr04 takes the maximum with its own requirement",
+}
+
 func init() {
 	properties["C01"] = &property{
 		explanation: "Decides structural necessary conditions of C01 for all BLAS code paths: TWIN.generated — every generated float32/complex64 routine (and sgemm, the dot variants, the blas32/cblas64/cblas128 conversions), none of which has tests of its own at Level 2/3, is node for node the image of its tested float64/complex128 source under the generator's renaming; MODSET.blas — for all 142 routines the set of slice operands that may be written (SSA store/copy/call summaries with a level-sensitive points-to abstraction, bottom-up over the VTA call graph, analysed under the noasm tag so that every kernel has a Go body) equals the output operands of the BLAS standard for the routine's stem ('every read-only operand is unchanged', up to caller-supplied aliasing); STRIDE — no operand of blas/gonum, the blas64/blas32/cblas* wrappers or the internal/asm Go kernels is indexed, sliced or forwarded with another operand's ld/inc/Stride (units inferred by flow-insensitive fixpoint over integer locals). STRIDE.extent — the element count of a strided vector in its length check, its negative-increment start offset and (in the kernels) its loop bound is one quantity; the start-index arguments (ix, iy) of the strided kernels obey the index rules; FLAG.trans — no real-valued routine or blas64/blas32 wrapper that accepts blas.ConjTrans distinguishes it from blas.Trans in any condition or switch. ASM.window/.tail/.units on the 56 assembly kernels. Does not decide arithmetic correctness of the loop nests, rounding, or the arithmetic of the assembly.",
@@ -169,7 +177,7 @@ func init() {
 
 func lapackProp(self, other, what string) *property {
 	return &property{
-		explanation: "Decides structural necessary conditions of " + self + " on the lapack/gonum routines anchored by it (and shared auxiliaries), for every path and both workspace modes: ARGS.query — with lwork == -1 the only stores are to work[0] and the only calls are queries/scalar helpers ('a workspace query touches nothing else'); OKFLOW.use/.report — the ok/unconverged status of every callee (a singular pivot from Dgetrf/Dpotrf/Dtrtrs/...) reaches a branch, field or return, and no driver returns success on the path where a callee failed; ARGS.order/.lencheck/.complete — arguments are validated before any operand write, every slice use is preceded by a branch on its length, every int/flag/slice parameter is validated; STRIDE — no operand is addressed with another operand's leading dimension, so results cannot depend on which matrix's ld was used; a strided vector handed on to BLAS keeps its own increment (STRIDE.vecinc); a workspace block is used with one leading dimension throughout a routine and the region laid out after it starts that many rows further (STRIDE.workld/.worknext); FLAG.trans on the routines that accept ConjTrans. " + what,
+		explanation: "Decides structural necessary conditions of " + self + " on the lapack/gonum routines anchored by it (and shared auxiliaries), for every path and both workspace modes: ARGS.query — with lwork == -1 the only stores are to work[0] and the only calls are queries/scalar helpers ('a workspace query touches nothing else'); OKFLOW.use/.report — the ok/unconverged status of every callee (a singular pivot from Dgetrf/Dpotrf/Dtrtrs/...) reaches a branch, field or return, and no driver returns success on the path where a callee failed; ARGS.order/.lencheck/.complete — arguments are validated before any operand write, every slice use is preceded by a branch on its length, every int/flag/slice parameter is validated; STRIDE — no operand is addressed with another operand's leading dimension, so results cannot depend on which matrix's ld was used; a strided vector handed on to BLAS keeps its own increment (STRIDE.vecinc); a workspace block is used with one leading dimension throughout a routine and the region laid out after it starts that many rows further (STRIDE.workld/.worknext); FLAG.trans on the routines that accept ConjTrans; WORKSIZE.min/.set — on every path that returns in query mode the value stored to work[0] is proved (path-wise symbolic interpretation of the prologue in a max/min-of-polynomials normal form, block sizes and nested query answers >= 1, zero/positive facts from the quick-return tests) to be at least the minimum lwork the same routine enforces with panic(badLWork), so a caller passing the queried length is never rejected (found and repaired: the quick-return answers of nine routines and Dsyev's missing store). " + what,
 		assumptions: commonAssumptions,
 		run: func(tier string, res *core.Result) {
 			sc := lapackScope(res, self, other)
@@ -191,12 +199,16 @@ func lapackProp(self, other, what string) *property {
 			ok := okflow.Run(def, core.Scope{Patterns: []string{"./lapack/gonum"}, Files: sc.Files})
 			ok.Floor("status_call_sites", 10)
 			res.Merge(ok)
+			ws := worksize.Run(def, core.Scope{Patterns: []string{"./lapack/gonum"}, Files: sc.Files}, worksizeExempt)
+			ws.Floor("routines_with_enforced_minimum", 8)
+			ws.Floor("query_answers_proved_sufficient", 30)
+			res.Merge(ws)
 		},
 	}
 }
 
 func init() {
-	properties["C02"] = lapackProp("C02", "C03", "Does not decide backward stability, factor structure, blocked/unblocked agreement or sufficiency of the reported workspace size.")
+	properties["C02"] = lapackProp("C02", "C03", "Does not decide backward stability, factor structure, blocked/unblocked agreement, or that the enforced minimum workspace is itself enough for the computation.")
 	properties["C03"] = lapackProp("C03", "C02", "Does not decide orthogonality, residual identities, ordering of values or convergence.")
 	properties["C07"] = &property{
 		explanation: "Decides, for all 281 exported BLAS and LAPACK entry points and every path through their prologues: ARGS.order (no argument-check panic is reachable after an operand may have been written), ARGS.lencheck (every use of a slice parameter is preceded on every path by a branch on its length — the only thing between a short slice and an out-of-bounds kernel access), ARGS.complete (every int/flag/slice parameter occurs in an argument check; exceptions are a frozen table with reasons), ARGS.optional (an operand validated only under a flag is used only under it), ARGS.query; MAT.order — in the 179 exported pointer-receiver methods of mat that validate shapes, none of the 297 shape/argument panics is reachable after the receiver was sized (reuseAs*) or written (zeroing stores are invalidation; element/status checks are data checks); TWIN.generated (the prologues of the untested float32/complex64 routines are the images of the tested ones) and TWIN.bounds (the bounds-checked and unchecked mat element accessors panic under the same conditions); STRIDE over BLAS, LAPACK and mat including STRIDE.len (a length check of operand p is written in p's own increment); ASM.window — in each of the 149 loops of the 56 assembly kernels every memory access through an induction register stays inside the bytes that iteration advances over (an over-wide load in a scalar tail is an out-of-bounds read on the last element); ASM.tail — outside the loops a block touches only the bytes it advances over, or one element in the final tail; ASM.units — a byte quantity is never scaled by SIZE again. Does NOT decide that the loop guards of the assembly leave enough elements, nor that each Go-level check uses the right extent polynomial.",
@@ -550,6 +562,8 @@ func dump(argv []string) {
 			pk = []string{"./..."}
 		}
 		res = config.Run(config.Matrix(tier), pk)
+	case "worksize":
+		res = worksize.Run(def, core.Pkgs(argv[1:]...), nil)
 	case "okflow":
 		res = okflow.Run(def, core.Pkgs(argv[1:]...))
 	case "overlap":
